@@ -3,7 +3,7 @@ SPECIFICATION KSpec
 CONSTANTS MaxLen = 2
           BlobLens = {0, 1, 254}
           KSet = {7}
-          LateOps = {"Raw", "Byte", "Int", "Decimal", "TextShort", "Blob", "IntArr"}
+          LateOps = {"Raw", "Int", "TextShort", "IntArr"}
 INVARIANTS SizeOK ReadBack ExactConsumption NoStuck OutOK KComplete
 PROPERTIES RdStable LateApart
 CHECK_DEADLOCK FALSE
